@@ -226,6 +226,8 @@ def analyse_unit(unit, repo, scratch, tier, seed, cfg):
                 return meta["items"][m2["item"]].get("serves") or []
             return m2.get("serves") or []
         return m.get("serves") or []
+    def is_oblig(k):
+        return 0 < k <= len(glines) and "OBLIGATION" in glines[k - 1].split("//", 1)[-1] and "//" in glines[k - 1]
     def clause_tags(ls, le):
         t = []
         for k in range(ls, min(le, ls + 40) + 1):
@@ -301,8 +303,11 @@ def analyse_unit(unit, repo, scratch, tier, seed, cfg):
             # the failing statement is spliced PROOF TEXT (an assert / lemma call of a //@before|after|bodystart hint, or an inductive
             # loop invariant / decreases clause of //@loop), not a clause of the function's contract and not real code
             "new_site": site_is_new_code(site_line),
-            "in_hint": bool((m.get("kind") == "ghost" and m.get("tag") in ("ghost-proof", "ghost-body", "ghost-loop")) or site_is_new_code(site_line)
-                            or (0 < cl_line <= len(lm) and lm[cl_line - 1].get("kind") == "ghost" and lm[cl_line - 1].get("tag") == "ghost-loop")
+            # ... EXCEPT a spliced statement marked `// [Cxx] OBLIGATION`: that assert / invariant IS a clause of the property written as
+            # ghost text because no function boundary exists where it could be an `ensures` (e.g. the per-message dispatch inside
+            # handle_input's loop); its failure with every other hint of the function verified is a violation like a failed ensures
+            "in_hint": bool((m.get("kind") == "ghost" and m.get("tag") in ("ghost-proof", "ghost-body", "ghost-loop") and not is_oblig(site_line)) or site_is_new_code(site_line)
+                            or (0 < cl_line <= len(lm) and lm[cl_line - 1].get("kind") == "ghost" and lm[cl_line - 1].get("tag") == "ghost-loop" and not is_oblig(cl_line))
                             or (f is not None and "sig_line" in f and lm[f["sig_line"] - 1].get("item") is not None
                                 and meta["items"][lm[f["sig_line"] - 1]["item"]].get("adapted"))),
         })
